@@ -700,6 +700,27 @@ func vC12Chain(t *testing.T, out *vEmitter) {
 					out.Violation("refresh/new-tokens-not-persisted", "after a refresh the stored session does not carry the new tokens", got)
 					break
 				}
+				// the whole history so far against the chain model (generation numbers of the tokens the session holds)
+				var flags []vsx
+				for j := 1; j <= k; j++ {
+					flags = append(flags, vBool(!pt.omit(j)))
+				}
+				gen := func(tok, prefix string) vsx {
+					n, err := strconv.Atoi(strings.TrimPrefix(tok, prefix))
+					if err != nil {
+						return vI(-1)
+					}
+					return vI(int64(n))
+				}
+				lastID := 0
+				for j := 1; j <= k; j++ {
+					if !pt.omit(j) {
+						lastID = j
+					}
+				}
+				_ = lastID
+				out.Case("chain-model/"+pt.name, true, vL(gen(stored.AccessToken, "at"), gen(stored.RefreshToken, "rt")),
+					vL("refresh_chain_tokens", vL(flags...)))
 				// age the stored session so that the next request refreshes again
 				old := time.Now().Add(-2 * time.Hour)
 				stored.CreatedAt = &old
